@@ -141,7 +141,8 @@ def charset_rt(cx, charset):
     fmt, ntr, div, tracks, notes = smf.ref_decode(cx, data, minimal=True)
     payload = [int(x) for x in tracks[0][0][3]]
     cx.check(payload == list(text.encode(charset)), 'file-bytes=text.encode(charset)')
-    back = mido.MidiFile(file=smf.in_file(cx, data), charset=charset)
+    # (clip=True only concerns out-of-range data bytes of channel messages: this file has none)
+    back = mido.MidiFile(file=smf.in_file(cx, data), charset=charset, clip=bool(cx.bool('clip')))
     cx.check(getattr(back.tracks[0][0], attr) == text and back.tracks[0][0].type == kind, 'text-survives')
     cx.check(default_in_force(cx, mido), 'charset-restored')
     # alternating / nested use of two charsets
@@ -159,7 +160,7 @@ def charset_rt(cx, charset):
 
 BOUNDS = {
     'quick': '8 charsets x 3-6 texts encodable in each x 8 text-carrying meta types (delta symbolic): file bytes == text.encode(c), '
-             'load gives the text back, charset restored, alternating calls with a second charset; load faults: truncation at a '
+             'load (with clip off and on) gives the text back, charset restored, alternating calls with a second charset; load faults: truncation at a '
              'SYMBOLIC offset 0..len, one SYMBOLIC byte substituted at every offset, track bodies of <=2 arbitrary bytes, for 3 '
              'charsets; save faults: the k-th message (k symbolic, 1-2 tracks) unstorable in 6 ways, or a charset name that no codec answers to, for 3 charsets',
     'thorough': 'load/save faults for all 8 charsets; track bodies of 3 arbitrary bytes',
